@@ -253,6 +253,15 @@ func hubWorlds() []wWorld {
 			prev = n
 		}
 		out = append(out, wWorld{Files: fs, Targets: []string{prev}, Bidi: true})
+		// ... and the same with three files importing the top of the chain (answers of length 3, 4, 5:
+		// the lengths at which append leaves spare capacity)
+		if d <= 4 {
+			fs3 := append([]wFile{}, fs...)
+			for i := 1; i <= 3; i++ {
+				fs3 = append(fs3, file(fmt.Sprintf("hub_d%d.proto", i), fmt.Sprintf("d%d", i), prev))
+			}
+			out = append(out, wWorld{Files: fs3, Targets: []string{"hub_d1.proto"}, Bidi: true})
+		}
 	}
 	return out
 }
